@@ -99,7 +99,7 @@ fn own_vars() -> impl Strategy<Value = Option<OwnVars>> {
 
 fn op() -> impl Strategy<Value = Op> {
     prop_oneof![
-        5 => proptest::collection::vec((any::<u16>(), log_uniform(1e-3, 1e3), own_vars()), 1..4).prop_map(Op::Update),
+        5 => proptest::collection::vec((any::<u16>(), prop_oneof![4 => log_uniform(1e-3, 1e3), 1 => Just(Fl(0.0))], own_vars()), 1..4).prop_map(Op::Update),
         4 => (0u8..3).prop_map(Op::SetOrder),
         1 => (0u8..12, 0u8..12, log_uniform(1e-2, 1e2)).prop_map(|(lhs, rhs, rate)| Op::RejectUnknown { lhs, rhs, rate }),
         1 => (any::<u16>(), log_uniform(1e-2, 1e2)).prop_map(|(idx, rate)| Op::RejectReversed { idx, rate }),
@@ -315,7 +315,14 @@ impl Property for C10 {
                     for (idx, rate, own) in items {
                         let k = pick(*idx, model.len());
                         let mut qd = model[k].clone();
-                        qd.q.rate = *rate;
+                        // a rate of 0 stands for "re-quote at the current value" (only the number
+                        // kind / the own variables of the quote change)
+                        if rate.0 != 0.0 {
+                            qd.q.rate = *rate;
+                        } else {
+                            v.label("op:update-same-value");
+                            v.label_if(qd.own.is_some() != own.is_some(), "op:update-same-value-other-kind");
+                        }
                         qd.own = own.clone();
                         newq.push(fx_rate_of(&qd));
                         model2[k] = qd; // later entries for the same pair win
@@ -458,7 +465,7 @@ impl Property for C10 {
     }
 
     fn rule(&self) -> String {
-        "random valid markets (trees on 2-8 currencies as in C09; each quote a plain float or, 25%, a dual number with 0-2 variables of its own) and histories of 0-12 operations: update of 1-3 existing pairs (new rate and number kind), set derivative order 0/1/2, refused updates (unknown pair, quoted pair reversed, good + unknown mix); interpreted against a model holding the latest quotes, the whole history shrinks as one value. After construction and after EVERY step all n*n rates are compared with the path products of the latest quotes (1e-12), their first-order sensitivities BY NAME (fx_xxxyyy for float quotes, own variables for dual quotes, the reversed spelling and every off-path quote must be zero) with +-cross/quote and the chain rule (1e-10), and at order 2 the Hessian with the analytic second derivatives; after an update also with a market built directly from the latest quotes; a refused update must return an error, leave == true against a clone and every rate bit-identical; switching order must keep quoted pairs bit-identical and crosses to 1e-12 and return numbers of the requested order. Non-trivial: >= 1 successful update after an order switch and >= 1 refused update.".into()
+        "random valid markets (trees on 2-8 currencies as in C09; each quote a plain float or, 25%, a dual number with 0-2 variables of its own) and histories of 0-12 operations: update of 1-3 existing pairs (new rate - or, 20%, a re-quote at the current value - and number kind), set derivative order 0/1/2, refused updates (unknown pair, quoted pair reversed, good + unknown mix); interpreted against a model holding the latest quotes, the whole history shrinks as one value. After construction and after EVERY step all n*n rates are compared with the path products of the latest quotes (1e-12), their first-order sensitivities BY NAME (fx_xxxyyy for float quotes, own variables for dual quotes, the reversed spelling and every off-path quote must be zero) with +-cross/quote and the chain rule (1e-10), and at order 2 the Hessian with the analytic second derivatives; after an update also with a market built directly from the latest quotes; a refused update must return an error, leave == true against a clone and every rate bit-identical; switching order must keep quoted pairs bit-identical and crosses to 1e-12 and return numbers of the requested order. Non-trivial: >= 1 successful update after an order switch and >= 1 refused update.".into()
     }
 
     fn floors(&self, tier: Tier) -> Vec<Floor> {
@@ -473,6 +480,7 @@ impl Property for C10 {
             Floor { label: "sensitivity:second-order-checked", min: n },
             Floor { label: "sensitivity:inverted-quote", min: n },
             Floor { label: "quotes:some-dual", min: n / 5 },
+            Floor { label: "op:update-same-value-other-kind", min: n / 20 },
         ]
     }
 
